@@ -96,6 +96,14 @@ def run_check(pid: str, tier: str) -> int:
                 inconclusive.append(f"deciding counter {name}={merged['counters'].get(name, 0)} < {minimum}")
         if hasattr(prop, "inconclusive"):
             inconclusive.extend(prop.inconclusive(merged))
+        # cases set aside because the expression together with neighbouring text formed another documented decoding: a
+        # handful is generator noise, many means a pattern now matches more than documented (or the generator drifted) -
+        # either way the cases that would decide were not judged
+        for name, n in merged["counters"].items():
+            if name.startswith("discarded:") and "neighbour" in name:
+                judged = max(merged["counters"].get("stacks_judged", 0), merged["counters"].get("judged", 0), 1)
+                if n > max(25, judged // 100):
+                    inconclusive.append(f"{n} cases set aside as collisions with another decoding ({name}); {judged} judged")
         if len(merged["nontrivial"]) < 2:
             inconclusive.append("fewer than 2 distinct non-trivial cases")
         if unlisted:
